@@ -130,3 +130,26 @@ def spk_predicates(ex, pred, N):
     b = ex.bytes("b", N)
     r = getattr(_spk, pred)(b)
     return {"answers_a_bool": sor(r == True, r == False)}   # noqa: E712
+
+
+_PK = bytes.fromhex("0279be667ef9dcbbac55a06295ce870b07029bfcdb2dce28d959f2815b16f81798")     # a valid compressed key (the generator)
+
+
+@ob("C19", "script_pub_key_predicates_on_multisig_shapes", quick=[dict(pred=p, nkeys=k) for p in ("is_p2ms", "is_p2pk", "is_nulldata", "is_p2sh") for k in (1, 2)],
+    thorough=[dict(pred=p, nkeys=k) for p in _PREDICATES for k in (1, 2, 3)],
+    bound="scripts shaped like bare multisig -- OP_m, nkeys pushes of a valid 33-byte key, OP_n, OP_CHECKMULTISIG -- in which the first byte, every push-length byte and the last two bytes are symbolic "
+          "(so pushes may be truncated or overlong): every predicate answers a bool",
+    functions=["btclib.script.script_pub_key._is_funct"], min_ok=1, timeout=600)
+def spk_predicates_multisig(ex, pred, nkeys):
+    items = [ex.int("m", 0, 255)]
+    for k in range(nkeys):
+        items.append(ex.int(f"len{k}", 0, 255))
+        items.extend(_PK)
+    items += [ex.int("n", 0, 255), ex.int("last", 0, 255)]
+    if ex.concrete:
+        b = bytes(items)
+    else:
+        from sx.seq import mk_bytes
+        b = mk_bytes(items)
+    r = getattr(_spk, pred)(b)
+    return {"answers_a_bool": sor(r == True, r == False)}   # noqa: E712
